@@ -1,6 +1,7 @@
 import LapyVerif.Props.C03
 import LapyVerif.Bridge.C03
 import LapyVerif.Bridge.Fem
+import LapyVerif.Bridge.SolverGlue
 /- axiom audit of C03 -/
 #print axioms LapyVerif.Props.C03.form_scale
 #print axioms LapyVerif.Props.C03.form_shiftMat
@@ -47,3 +48,8 @@ import LapyVerif.Bridge.Fem
 #print axioms LapyVerif.Bridge.fem_tria_B
 #print axioms LapyVerif.Bridge.fem_tet_A
 #print axioms LapyVerif.Bridge.fem_tet_B
+#print axioms LapyVerif.Bridge.glue_sigma
+#print axioms LapyVerif.Bridge.glue_shifted
+#print axioms LapyVerif.Bridge.glue_shifted_keys
+#print axioms LapyVerif.Bridge.glue_calls
+#print axioms LapyVerif.Bridge.glue_calls_names
